@@ -253,6 +253,23 @@ def gen_chain(g, n_target=None, force_worm=None, self_locking=None,
             i2 = add(second)
             decls.append({'op': 'worm', 'm': i1, 's': i2, 'f': f})
             prev = i2
+    # F-REJECT-free re-routing history: a decoy gear is first declared as the
+    # master of a chain gear (mating with efficiency < 1), then the chain's
+    # own fixed joint re-routes that gear (DESIGN 7, D9)
+    if allow_reroute:
+        import copy as _copy
+        joints = [d for d in decls if d['op'] == 'joint' and
+                  els[d['s']]['kind'] in ('SpurGear', 'HelicalGear')]
+        if joints:
+            d = r.choice(joints)
+            tgt = els[d['s']]
+            decoy = _copy.deepcopy(tgt)
+            decoy['z'] = g.teeth()
+            decoy['J'] = g.inertia()
+            decoy['name'] = f"decoy{len(els)}"
+            els.append(decoy)
+            decls.insert(0, {'op': 'gear', 'm': len(els) - 1, 's': d['s'],
+                             'eff': round(r.uniform(0.3, 0.95), 3)})
     # the last element must be a GearBase (carries the external load)
     if els[-1]['kind'] not in rm.GEAR_KINDS:
         e = {'kind': 'SpurGear', 'z': g.teeth(), 'J': g.inertia(), 'm': None,
@@ -398,7 +415,8 @@ def base_scenario(g, profile, **chain_kw):
 def gen_dyn(g):
     """C01-C03 (and the default for others): run / continue / reset."""
     r = g.rng
-    scn, model, chain = base_scenario(g, 'dyn')
+    scn, model, chain = base_scenario(g, 'dyn',
+                                      allow_reroute=g.chance(0.12))
     k = rm.rate_constant(model, chain)[0]
     scn['load'] = gen_load(g, model, chain)
     scn['init'] = gen_init(g, model, chain)
